@@ -22,6 +22,18 @@ func linOfBV(v *BV) linForm {
 	if x, ok := v.ConstVal(); ok {
 		return linForm{k: new(big.Int).Set(x)}
 	}
+	// x<<k  ==  2^k * x  (mod 2^W): factor trailing constant-zero bits
+	if tz := trailingZeros(v); tz > 0 && tz < v.W {
+		inner := &BV{W: v.W, Signed: v.Signed, Bits: make([]Bit, v.W)}
+		for i := 0; i < v.W; i++ {
+			if i+tz < v.W {
+				inner.Bits[i] = v.Bits[i+tz]
+			} else {
+				inner.Bits[i] = U.B0
+			}
+		}
+		return linOfBV(inner).scale(new(big.Int).Lsh(big.NewInt(1), uint(tz)))
+	}
 	t := v.Term()
 	if t.Op == "lin" && t.W == v.W {
 		return linForm{k: new(big.Int).Set(t.K), terms: append([]*Term(nil), t.Args...), coefs: append([]*big.Int(nil), t.Coef...)}
@@ -151,4 +163,12 @@ func isArith(v *BV) bool {
 		}
 	}
 	return false
+}
+
+func trailingZeros(v *BV) int {
+	n := 0
+	for n < v.W && isConst(v.Bits[n]) && !v.Bits[n].c {
+		n++
+	}
+	return n
 }
